@@ -166,9 +166,11 @@ TAbortCommitted ==
     /\ AbortEff(Line.p)
     /\ Consume(FALSE, TRUE)
 
+\* (A lookup that answers without waiting for a held shard lock is accepted as long as its answer
+\* is the one the specification gives for the current state: the property does not demand blocking.)
 TGet ==
     /\ IsOp("get") /\ Res \in {"hit", "notfound", "fileread"}
-    /\ Get(Line.p, Line.k)
+    /\ GetBody(Line.p, Line.k)
     /\ LET e == entries[Line.k]
            modelHit == e.present /\ ~(IsFile /\ path[Line.k] = 0)
        IN Consume(IF Res = "hit"
